@@ -44,6 +44,7 @@ type loopContext struct {
 	exitBlock   *BasicBlock // Loop exit point
 	elseBlock   *BasicBlock // Loop else clause (optional)
 	loopType    string      // "for" or "while"
+	excDepth    int         // Depth of the exception stack when the loop was entered
 }
 
 // exceptionContext tracks the context of a try block for exception handling
@@ -296,6 +297,10 @@ func (b *CFGBuilder) processStatement(stmt *parser.Node) {
 					b.processStatement(blockStmt)
 				}
 			}
+		}
+		// The parser stores the statements of an else clause (e.g. for/while ... else) in Body
+		for _, bodyStmt := range stmt.Body {
+			b.processStatement(bodyStmt)
 		}
 		return
 	}
@@ -705,6 +710,7 @@ func (b *CFGBuilder) processForStatement(stmt *parser.Node) {
 		exitBlock:   exitBlock,
 		elseBlock:   elseBlock,
 		loopType:    "for",
+		excDepth:    len(b.exceptionStack),
 	}
 	b.pushLoopContext(loopCtx)
 	defer b.popLoopContext()
@@ -773,6 +779,7 @@ func (b *CFGBuilder) processWhileStatement(stmt *parser.Node) {
 		exitBlock:   exitBlock,
 		elseBlock:   elseBlock,
 		loopType:    "while",
+		excDepth:    len(b.exceptionStack),
 	}
 	b.pushLoopContext(loopCtx)
 	defer b.popLoopContext()
@@ -832,7 +839,7 @@ func (b *CFGBuilder) processBreakStatement(stmt *parser.Node) {
 	// blocks we're currently processing (to avoid self-loops), until we find the first
 	// enclosing finally block that hasn't been entered yet.
 	var targetFinallyBlock *BasicBlock
-	for i := len(b.exceptionStack) - 1; i >= 0; i-- {
+	for i := len(b.exceptionStack) - 1; i >= loopCtx.excDepth; i-- {
 		exceptionCtx := b.exceptionStack[i]
 		// Skip if currently processing this finally block (break is inside finally)
 		if exceptionCtx.processingFinally {
@@ -875,7 +882,7 @@ func (b *CFGBuilder) processContinueStatement(stmt *parser.Node) {
 	// blocks we're currently processing (to avoid self-loops), until we find the first
 	// enclosing finally block that hasn't been entered yet.
 	var targetFinallyBlock *BasicBlock
-	for i := len(b.exceptionStack) - 1; i >= 0; i-- {
+	for i := len(b.exceptionStack) - 1; i >= loopCtx.excDepth; i-- {
 		exceptionCtx := b.exceptionStack[i]
 		// Skip if currently processing this finally block (continue is inside finally)
 		if exceptionCtx.processingFinally {
@@ -1068,10 +1075,19 @@ func (b *CFGBuilder) processTryStatement(stmt *parser.Node) {
 		if len(b.loopStack) > 0 {
 			loopCtx := b.loopStack[len(b.loopStack)-1]
 
+			// Only finally blocks of try statements inside the same loop intercept break/continue
+			var nextLoopFinally *BasicBlock
+			for i := len(b.exceptionStack) - 2; i >= loopCtx.excDepth; i-- {
+				if b.exceptionStack[i].finallyBlock != nil {
+					nextLoopFinally = b.exceptionStack[i].finallyBlock
+					break
+				}
+			}
+
 			// Break propagation
-			if nextOuterFinally != nil {
-				if !b.hasSuccessor(finallyBlock, nextOuterFinally) {
-					b.cfg.ConnectBlocks(finallyBlock, nextOuterFinally, EdgeBreak)
+			if nextLoopFinally != nil {
+				if !b.hasSuccessor(finallyBlock, nextLoopFinally) {
+					b.cfg.ConnectBlocks(finallyBlock, nextLoopFinally, EdgeBreak)
 				}
 			} else {
 				if !b.hasSuccessor(finallyBlock, loopCtx.exitBlock) {
@@ -1080,9 +1096,9 @@ func (b *CFGBuilder) processTryStatement(stmt *parser.Node) {
 			}
 
 			// Continue propagation
-			if nextOuterFinally != nil {
-				if !b.hasSuccessor(finallyBlock, nextOuterFinally) {
-					b.cfg.ConnectBlocks(finallyBlock, nextOuterFinally, EdgeContinue)
+			if nextLoopFinally != nil {
+				if !b.hasSuccessor(finallyBlock, nextLoopFinally) {
+					b.cfg.ConnectBlocks(finallyBlock, nextLoopFinally, EdgeContinue)
 				}
 			} else {
 				if !b.hasSuccessor(finallyBlock, loopCtx.headerBlock) {
